@@ -361,7 +361,7 @@ PROPS['C06'] = dict(
     technique='Kani contract check of the real uniform sampling kernels with the ChaCha8 stream abstracted to a symbolic tape: range, bijection on the low bits, one draw per coefficient, column frame; Verus contracts on the real text of Source::next_u64n, znx_fill_uniform_ref and vec_znx_fill_uniform_ref (unbounded in N and limb count): which stream word lands in which coefficient',
     level_text='Unbounded (Verus): coefficient k of limb j of the filled column is the balanced digit of stream word pos + j*N + k, the source advances by exactly N*size words, no other limb is written -- the mask is a function of the mask seed and the stream position only. Complete in stream values and radix (1..=62/63), bounded in shape (N=2, size 2) (Kani): every mask limb lies in [-2^(b-1), 2^(b-1)) and is a bijective image of the low b bits of exactly one stream word, coefficients consume the stream in order (limb-major), other columns are untouched; next_u64n never rejects for power-of-two bounds.',
     level_note='Statistical claims (sigma of the error, uniformity of ChaCha8 itself) and seed separation of the encryption routines are not contract properties / not covered; Source::new is abstracted (cpuid).',
-    units=[V('core_lwe_encrypt'), V('sampling'), V('core_encrypt'),
+    units=[V('core_lwe_encrypt'), V('sampling'), V('core_encrypt'), V('cbt_key_encrypt'),
            K('poulpy-hal', 'verif_kani', ['c06_next_u64n_power_of_two', 'c06_vec_znx_fill_uniform__n2_size2'], cls='complete', timeout=900, functions=['Source::next_u64n', '<VecZnx as FillUniform>::fill_uniform']),
            K('poulpy-cpu-ref', 'verif_kani', ['c06_vec_znx_fill_uniform_ref__n2_size2'], cls='complete', timeout=900, functions=['znx_fill_uniform_ref', 'vec_znx_fill_uniform_ref'])],
     trusted_base=VERUS_TRUST + ['Source reduced to (seed, words drawn) in the Verus unit'],
